@@ -284,8 +284,8 @@ func newPnftEnv(v pnftVariant) *pnftEnv {
 	e.Denoms = []string{"d", "dd"}
 	e.TokIDs = []string{"t", "tt"}
 	if v.Wide {
-		e.Denoms = []string{"d", "dd", "d\x00x"}
-		e.TokIDs = []string{"t", "tt", "x\x00t"}
+		e.Denoms = []string{"d", "dd", "d\x00x", "d\x00", "\x00d"}
+		e.TokIDs = []string{"t", "tt", "x\x00t", "\x00t", "t\x00"}
 	}
 	return e
 }
@@ -380,6 +380,10 @@ func pnftOps(e *pnftEnv, v pnftVariant) []explore.Op {
 			createDenom("d\x00x", A, A.Bech),
 			mint("d", "x\x00t", A),
 			mint("d\x00x", "t", A),
+			mint("d", "\x00t", A),
+			mint("d", "t\x00", A),
+			createDenom("d\x00", A, A.Bech),
+			createDenom("\x00d", A, A.Bech),
 			txOp("Burn(d\\0x,t,A)", s(A), pnfttypes.NewMsgBurnPNFTRequest("d\x00x", "t", A.Bech)),
 			txOp("TransferPNFT(d\\0x,t,A->B)", s(A), pnfttypes.NewMsgTransferPNFTRequest("d\x00x", "t", A.Bech, B.Bech)),
 			txOp("DeleteDenom(dd,A)", s(A), pnfttypes.NewMsgDeleteDenomRequest("dd", A.Bech)),
